@@ -9,13 +9,15 @@ def spec(tier):
     obs = [XH("G.generation", F, "generation", 250 if q else 900, path_timeout=120,
               what="link generation counter: real serve_onSave from link_version = v with the extending type of another file last resolved at version w; v, w symbolic ints (range of w = what the real counter can have taken: probed from the code - wrapping or monotone); inherited members must come from the new parent; a counterexample is confirmed by a concrete history of ~1000 edits before it is reported")]
     obs += parts("H.history", F, "history", 16, T, path_timeout=300,
-                 what="4-file workspace (module with type + interface + procedure; module using it with EXTENDS / declared variables / component access / type-bound link / INCLUDE; a submodule; the include file), histories of 2 (quick) / 3 (thorough) events out of 23 (query everything, edit to one of 5 versions of the module or 2 of the include file without saving, save a version, close, delete, re-create), all final versions: after saving everything the dump (completion after v% and w%, 7 definitions + hovers, references, diagnostics, document and workspace symbols) equals a freshly started server's")
+                 what="7-file workspace (module with type + interface + procedure; module using it with EXTENDS across 3 files / declared variables / component access / type-bound link / two INCLUDEs, one through './'; a submodule; the include files), histories of 2 (quick) / 3 (thorough) events out of 31 (query everything, edit to one of 5 versions of the module or 2 of an include file without saving, ranged edit, save a version, close, delete, re-create), all final versions, ending either with one save of exactly the files that changed (ascending / descending order) or (thorough) with every file saved twice: the dump (completion after v% and w%, 7 definitions + hovers, references, diagnostics, document and workspace symbols) equals a freshly started server's")
+    obs += parts("I.init_orders", F, "init_orders", 16, T, path_timeout=300,
+                 what="fresh start: the real workspace_init (directory walk and process pool replaced by stand-ins) over the 7 files in all 7! (thorough) / 840 evenly spread (quick) enumeration orders x 5 x 2 versions gives the same dump as in ascending order")
     return dict(
         obligations=obs,
-        functions=["serve_onOpen", "serve_onChange", "serve_onSave", "serve_onClose", "update_workspace_file", "FortranAST.resolve_links", "resolve_includes",
+        functions=["workspace_init", "file_init", "serve_onOpen", "serve_onChange", "serve_onSave", "serve_onClose", "update_workspace_file", "FortranAST.resolve_links", "resolve_includes",
                    "Type.resolve_inherit", "Variable.get_type_obj/resolve_link", "Method.resolve_link", "Submodule.resolve_inherit/resolve_link", "Interface.resolve_link"],
-        bounds="G: all non-negative v, w in the counter's range; H: 23 x 24 (x 24) event sequences x 5 x 2 final versions",
+        bounds="G: all non-negative v, w in the counter's range; H: 31 x 32 (x 32) event sequences x 5 x 2 final versions x 2 (3) endings",
         assumptions=["disk replaced by an in-memory table (load_from_disk itself runs: hashing, tab normalisation)", "sources do not share preprocessor macro names (property)",
                      "histories below the solver-chosen first event / final version are enumerated concretely; G runs the handler untraced with symbolic version numbers"],
-        outside=["histories longer than 3 events (except through G)", "real disk I/O, file watchers", "workspace initialisation (C15)"],
+        outside=["histories longer than 3 events (except through G)", "real disk I/O, file watchers", "worker processes and pickling of workspace initialisation (C15); its merge / resolve phase IS run (fresh server = real workspace_init)"],
     )
